@@ -8,10 +8,11 @@ from persim import wasserstein
 
 from ..core import Clause, close
 from ..oracles import matching as M
-from ..strategies import diagram_family, valid_family
+from ..strategies import dict_of, diagram_family, valid_family
 from ._dist import (decimal_singleton_cases, near_identical_pair, EMPTY_FORMS, INF, as_input, call_quiet, coord_scale, has_dup, lattice_slice_cases,
                     pair_labels, small_pairs)
 
+FUZZ = ["value_small"]
 RULE = ("Pairs of diagrams from a shared lattice (ties, duplicates, diagonal points, negative coordinates, scales "
         "10^-6..10^6), ulp-perturbed lattice points and arbitrary floats.")
 ASSUMPTIONS = ["diagrams are (n,2) arrays / nested lists or an accepted empty form (extra columns are outside the statement)",
@@ -66,7 +67,7 @@ def check_value_small(case, ctx):
                 lambda: "wasserstein(..., matching=True) returns distance %r, min over all matchings=%r; A=%s B=%s" % (res[0] if isinstance(res, tuple) else res, ref, A, B))
 
 
-s_value_small = st.fixed_dictionaries({
+s_value_small = dict_of({
     "fam": small_pairs(6 if os.environ.get("PV_TIER") == "thorough" else 5), "ea": st.sampled_from(EMPTY_FORMS), "eb": st.sampled_from(EMPTY_FORMS),
     "as_list": st.sampled_from([False, False, True, "narrow"])})
 
@@ -87,7 +88,7 @@ def check_value_medium(case, ctx):
                 lambda: "wasserstein=%r, independent assignment reference=%r; |A|=%d |B|=%d A=%s B=%s" % (out, ref, len(A), len(B), A, B))
 
 
-s_value_medium = st.fixed_dictionaries({"fam": diagram_family(count=2, min_size=0, max_size=40, dup_bias=True)})
+s_value_medium = dict_of({"fam": diagram_family(count=2, min_size=0, max_size=40, dup_bias=True)})
 
 
 @st.composite
